@@ -910,17 +910,22 @@ def run_deblend(s, o):
 # ----------------------------------------------------------------------
 # 9. SourceCatalog
 # ----------------------------------------------------------------------
+# Windowed centroid: an iteration that stops when the last step is below 1e-4 px (and applies twice that step), so a
+# last-digit difference of its inputs (flux-fraction radius from a root finder, exact-overlap weights) can change the
+# number of iterations: results agree only to the algorithm's own convergence threshold. Measured over two thorough
+# runs: <= 1e-9 px except 7e-9 (translate) and 4.8e-7 (transpose) in one row each; tolerance 5e-4 px.
+WIN_ATOL = 5e-4
 SPEC_CAT = {
     'area': K('free'), 'background': K('img', unit='data'), 'background_centroid': K('free', unit='data'),
     'background_ma': K('img'), 'background_mean': K('free', unit='data'),
     'background_sum': K('free', unit='data'), 'bbox': K('bbox'),
     'bbox_xmax': K('ix', 'bbox_ymax'), 'bbox_xmin': K('ix', 'bbox_ymin'),
     'bbox_ymax': K('iy', 'bbox_xmax'), 'bbox_ymin': K('iy', 'bbox_xmin'),
-    'centroid': K('xy'), 'centroid_quad': K('xy'), 'centroid_win': K('xy'),
+    'centroid': K('xy'), 'centroid_quad': K('xy'), 'centroid_win': K('xy', atol=WIN_ATOL),
     'convdata': K('img', unit='data'), 'convdata_ma': K('img'),
     'covar_sigx2': K('free', 'covar_sigy2', md=True), 'covar_sigxy': K('free', md=True), 'covar_sigy2': K('free', 'covar_sigx2', md=True),
     'covariance': K('mat2', md=True), 'covariance_eigvals': K('free', md=True),
-    'cutout_centroid': K('cxy'), 'cutout_centroid_quad': K('cxy'), 'cutout_centroid_win': K('cxy'),
+    'cutout_centroid': K('cxy'), 'cutout_centroid_quad': K('cxy'), 'cutout_centroid_win': K('cxy', atol=WIN_ATOL),
     'cutout_maxval_index': K('ciyx'), 'cutout_minval_index': K('ciyx'),
     'cxx': K('free', 'cyy', md=True), 'cxy': K('free', md=True), 'cyy': K('free', 'cxx', md=True),
     'data': K('img', unit='data'), 'data_ma': K('img'),
@@ -943,9 +948,9 @@ SPEC_CAT = {
     'sky_centroid': K('skip'), 'sky_centroid_icrs': K('skip'), 'sky_centroid_quad': K('skip'),
     'sky_centroid_win': K('skip'), 'slices': K('slices'),
     'xcentroid': K('x', 'ycentroid'), 'xcentroid_quad': K('x', 'ycentroid_quad'),
-    'xcentroid_win': K('x', 'ycentroid_win'),
+    'xcentroid_win': K('x', 'ycentroid_win', atol=WIN_ATOL),
     'ycentroid': K('y', 'xcentroid'), 'ycentroid_quad': K('y', 'xcentroid_quad'),
-    'ycentroid_win': K('y', 'xcentroid_win'),
+    'ycentroid_win': K('y', 'xcentroid_win', atol=WIN_ATOL),
     # method results
     'm_kron_flux2': K('free', unit='data'), 'm_kron_fluxerr2': K('free', unit='data'),
     'm_fluxfrac_r50': K('free'), 'm_fluxfrac_r80': K('free'),
